@@ -3,7 +3,7 @@
    the model is tied to shuffle/{simple,pair,sequences,biffle}.go by the correspondence run. *)
 From Coq Require Import ZArith Znumtheory List Bool Lia Permutation.
 From Kyber Require Import Algebra.Zq Algebra.Grp Shuffle.ShuffleSM Shuffle.ShuffleLemmas
-     Shuffle.SimpleProofs Shuffle.PairProofs Shuffle.SoundProofs Shuffle.ProtoProofs Shuffle.FSProofs.
+     Shuffle.SimpleProofs Shuffle.PairProofs Shuffle.SoundProofs Shuffle.ProtoProofs Shuffle.FSProofs Shuffle.SimpleSound.
 Import ListNotations.
 
 (* ---- "the proof produced by the shuffler verifies", every k >= 2, every permutation ---- *)
@@ -197,6 +197,98 @@ Theorem C15_biffle_special_sound :
 Proof. intros q Hq. first [exact (biffle_special_sound q Hq) | exact (biffle_special_sound q)]. Qed.
 Print Assumptions C15_biffle_special_sound.
 
+(* ---- soundness core of the simple k-shuffle and explicit bounds on answerable challenges ---- *)
+
+(* two lists of k field elements whose root polynomials prod (a_i - s) agree at more than k points
+   are permutations of each other (a non-zero polynomial of degree <= k has at most k roots) *)
+Theorem C15_prod_eq_perm :
+  forall (q : Z), prime q ->
+  forall (a b pts : list (zq q)),
+    length a = length b -> NoDup pts -> (length a < length pts)%nat ->
+    (forall s, In s pts -> zprod q (shifted q a s) = zprod q (shifted q b s)) ->
+    Permutation a b.
+Proof. intros q Hq. first [exact (prod_eq_perm q Hq) | exact (prod_eq_perm q)]. Qed.
+Print Assumptions C15_prod_eq_perm.
+
+(* special soundness: two accepting answers c <> c' to one commitment force the product identity at t *)
+Theorem C15_simple_special_sound :
+  forall (q : Z), prime q ->
+  forall (G Gamma t c c' : zq q) (tr tr' : simple_tr q),
+    simple_verify q G Gamma tr t c = true -> simple_verify q G Gamma tr' t c' = true ->
+    sX tr' = sX tr -> sY tr' = sY tr -> sTheta tr' = sTheta tr -> c <> c' ->
+    let k := length (sY tr) in
+    zprod q (Xhat_of q G (sX tr) t ++ repeat Gamma k) = zprod q (Xhat_of q Gamma (sY tr) t ++ repeat G k).
+Proof. intros q Hq. first [exact (simple_special_sound q Hq) | exact (simple_special_sound q)]. Qed.
+Print Assumptions C15_simple_special_sound.
+
+(* if y is NOT a gamma-scaled permutation of x (as multisets of logarithms), at most k challenges t
+   admit a commitment that can be answered for two different c *)
+Theorem C15_simple_sound_bound :
+  forall (q : Z), prime q ->
+  forall (g gamma : zq q) (x y ts : list (zq q)),
+    g <> zzero -> gamma <> zzero -> length x = length y ->
+    ~ Permutation (map (zmul gamma) x) y ->
+    NoDup ts -> (forall t, In t ts -> simple_bad q g gamma x y t) ->
+    (length ts <= length x)%nat.
+Proof. intros q Hq. first [exact (simple_sound_bound q Hq) | exact (simple_sound_bound q)]. Qed.
+Print Assumptions C15_simple_sound_bound.
+
+(* pair shuffle, challenge t: unless S = C + lambda*D is a Gamma-scaled index permutation of
+   R = A + lambda*B, at most k values of t are answerable for two different c *)
+Theorem C15_pair_t_bound :
+  forall (q : Z), prime q ->
+  forall (G H gamma : zq q) (X Y Xbar Ybar : list (zq q)) (tr0 : pair_tr q)
+         (rho : list (zq q)) (lambda : zq q) (ts : list (zq q)),
+    let k := length X in
+    G <> zzero -> gamma <> zzero -> pGamma tr0 = smul gamma G ->
+    (forall pi, Permutation pi (seq 0 k) ->
+       ~ (forall i, (i < k)%nat ->
+            nthF q (Slog q G tr0 lambda k) i = zmul gamma (nthF q (Rlog q G tr0 rho lambda k) (idx pi i)))) ->
+    NoDup ts -> (forall t, In t ts -> pair_bad_t q G H X Y Xbar Ybar tr0 rho lambda t) ->
+    (length ts <= k)%nat.
+Proof. intros q Hq. first [exact (pair_t_bound_rel q Hq) | exact (pair_t_bound_rel q)]. Qed.
+Print Assumptions C15_pair_t_bound.
+
+(* pair shuffle, challenge lambda (per permutation): unless D and C are bound by pi, one lambda at most *)
+Theorem C15_pair_lambda_unique :
+  forall (q : Z), prime q ->
+  forall (G H gamma : zq q) (X Y Xbar Ybar : list (zq q)) (tr tr' : pair_tr q) (rho : list (zq q))
+         (lambda lambda' t c t' c' : zq q) (pi : list nat),
+    let k := length X in
+    Permutation pi (seq 0 k) ->
+    ~ (D_bound q G gamma pi tr rho k /\
+       forall i, (i < k)%nat -> nthF q (pC tr) i = smul gamma (nthF q (pA tr) (idx pi i))) ->
+    accepts q true G H X Y Xbar Ybar tr rho lambda t c ->
+    accepts q true G H X Y Xbar Ybar tr' rho lambda' t' c' ->
+    pA tr' = pA tr -> pC tr' = pC tr -> pU tr' = pU tr -> pD tr' = pD tr ->
+    simple_rel q gamma pi tr k -> simple_rel q gamma pi tr' k ->
+    lambda = lambda'.
+Proof. intros q Hq. first [exact (pair_lambda_unique q Hq) | exact (pair_lambda_unique q)]. Qed.
+Print Assumptions C15_pair_lambda_unique.
+
+(* pair shuffle, challenge rho: an output that is not a permutation of re-encryptions has, for every
+   permutation pi, a coordinate of rho with at most one answerable value (D bound by pi).
+   PARTIAL: the union over the k! permutations at the lambda level and the composition of the
+   per-challenge bounds into one success probability are not formalised (see SimpleSound.v). *)
+Theorem C15_pair_sound_partial :
+  forall (q : Z), prime q ->
+  forall (tied : bool) (G H gamma : zq q) (X Y Xbar Ybar : list (zq q)) (pi : list nat),
+    let k := length X in
+    G <> zzero -> gamma <> zzero -> length Xbar = k -> length Ybar = k ->
+    Permutation pi (seq 0 k) ->
+    ~ is_shuffle q G H X Y Xbar Ybar ->
+    exists i0, (i0 < k)%nat /\
+      forall (tr tr' : pair_tr q) (rho rho' : list (zq q)) (lambda lambda' t c t' c' : zq q),
+        accepts q tied G H X Y Xbar Ybar tr rho lambda t c ->
+        accepts q tied G H X Y Xbar Ybar tr' rho' lambda' t' c' ->
+        pGamma tr = smul gamma G -> pGamma tr' = pGamma tr ->
+        pU tr' = pU tr -> pW tr' = pW tr -> pL1 tr' = pL1 tr -> pL2 tr' = pL2 tr ->
+        (forall i, (i < k)%nat -> i <> idx pi i0 -> nthF q rho' i = nthF q rho i) ->
+        D_bound q G gamma pi tr rho k -> D_bound q G gamma pi tr' rho' k ->
+        nthF q rho' (idx pi i0) = nthF q rho (idx pi i0).
+Proof. intros q Hq. first [exact (pair_sound_partial q Hq) | exact (pair_sound_partial q)]. Qed.
+Print Assumptions C15_pair_sound_partial.
+
 (* ---- the hypotheses are satisfiable: a concrete run over Z_251, k = 3, pi = (1 0 2) ---- *)
 Definition f251 (x : Z) : zq 251 := of_Z 251 x.
 Definition l251 := map f251.
@@ -228,4 +320,22 @@ Proof.
   - intros i Hi E. apply zq_eq_iff in E.
     destruct i as [|[|[|i]]]; [vm_compute in E; discriminate ..|lia].
   - split; [vm_compute; reflexivity|]. split; vm_compute; reflexivity.
+Qed.
+
+(* the bound of C15_simple_sound_bound is about something that happens: for the FALSE statement
+   x = (1,2), y = (1,5), gamma = 1 over Z_251 the challenge t = 1 (a common root of the two root
+   polynomials) is answerable for two different c; the theorem says at most 2 such t exist *)
+Example C15_sound_nonvacuous :
+  simple_bad 251 (f251 1) (f251 1) (l251 [1; 2]%Z) (l251 [1; 5]%Z) (f251 1) /\
+  ~ Permutation (map (zmul (f251 1)) (l251 [1; 2]%Z)) (l251 [1; 5]%Z).
+Proof.
+  split.
+  - exists (l251 [0; 0; 0; 0]%Z), (l251 [4; 1; 1]%Z), (l251 [8; 2; 2]%Z), (f251 1), (f251 2).
+    split; [intros E; apply zq_eq_iff in E; vm_compute in E; discriminate|].
+    split; vm_compute; reflexivity.
+  - intros Hp. apply Permutation_sym in Hp.
+    assert (Hin : In (f251 5) (map (zmul (f251 1)) (l251 [1; 2]%Z))).
+    { apply (Permutation_in _ Hp). right. left. reflexivity. }
+    cbn [map l251 In] in Hin.
+    destruct Hin as [E|[E|[]]]; apply zq_eq_iff in E; vm_compute in E; discriminate.
 Qed.
